@@ -28,7 +28,9 @@ TEXTS = ['gplv2 and expat', 'GNU GPL 2 with cp or MIT License', 'MIT License and
          'mit and (gpl-2.0 or MIT) and mit', 'mit or', '()', 'a$ and b', 'Classpath', 'foo bar and mit', 'mit and gpl-2.0 and mit',
          # repeats inside nested groups that keep two operands (what an in-place rewrite of a nested node would change)
          'mit or (gpl-2.0 and foo and gpl-2.0)', 'mit and (gpl-2.0 or (mit and foo and mit) or gpl-2.0)',
-         '(mit or gpl-2.0) and (gpl-2.0 with classpath or mit or gpl-2.0 with classpath)']
+         '(mit or gpl-2.0) and (gpl-2.0 with classpath or mit or gpl-2.0 with classpath)',
+         # alternating operators four levels deep (what a normal-form computation would rewrite)
+         'mit and (gpl-2.0 or (foo and (bar or mit)))', 'gpl-2.0 or (mit and (foo or (bar and gpl-2.0)))']
 
 
 def snap(e):
@@ -42,7 +44,7 @@ class Prop(BaseProp):
         ops = []
         for _ in range(rng.randint(5, 40 if rng.random() < 0.3 else 15)):
             kind = rng.choice(['parse', 'parse', 'keys', 'symbols', 'unknown', 'validate', 'equiv', 'contains', 'dedup', 'simplify', 'render',
-                               'combine', 'construct', 'reparse'])
+                               'combine', 'construct', 'reparse', 'resimplify'])
             # the same texts in other letter cases too: known names resolve alike, unknown names keep the spelling of the text
             recase = lambda t: rng.choice([t, t, t.upper(), t.lower(), t.title(), t.swapcase()])  # noqa
             ops.append({'op': kind, 'inst': rng.randrange(ninst), 'text': recase(rng.choice(TEXTS)), 'text2': recase(rng.choice(TEXTS)),
@@ -140,6 +142,12 @@ class Prop(BaseProp):
                 continue
             lic = insts[op['inst'] % len(insts)]
             table = TABLES[case['insts'][op['inst'] % len(insts)]]
+            if k == 'resimplify':
+                # a shared object that is the (canonical) result of simplify(): what later calls are handed
+                o = impl.outcome(lambda: lic.parse(op['text']))
+                if P.is_ok(o) and o[1] is not None:
+                    shared[op['text']] = o[1].simplify()
+                continue
             if k == 'reparse':
                 o = impl.outcome(lambda: lic.parse(op['text']))
                 if P.is_ok(o):
